@@ -80,8 +80,9 @@ def run(tier):
     rc, so, se = vlib.sh([vw, "loadcheck", ws] + ppats, timeout=600)
     if "bad 0" not in so:
         vlib.harness_fail("proposal shape corpus does not type-check: " + so[-800:] + se[-400:])
-    jobs = [(ws, spats, "S"), (ws, gpats, "G"), (ws, tpats, "R"), (ws, ppats, "P")]
-    scanlib.run_sharded(res, vw, "c09", jobs, {"C09"}, per_task_extra=lambda idx, label, w: ["-scratch", os.path.join(scratch, label)], timeout=3000)
+    # ...F: the same packages once more for the checkers with boolean parameters, every one set to its non-default value
+    jobs = [(ws, spats, "S"), (ws, gpats, "G"), (ws, tpats, "R"), (ws, ppats, "P"), (ws, spats, "SF"), (ws, tpats, "RF"), (ws, ppats, "PF")]
+    scanlib.run_sharded(res, vw, "c09", jobs, {"C09"}, per_task_extra=lambda idx, label, w: ["-scratch", os.path.join(scratch, label)] + (["-flipbools"] if label.rstrip("0123456789-_.").endswith("F") else []), timeout=3000)
     # end-to-end: go-critic-analysis -fix on scratch copies; then parse, type-check, compare outside the edit ranges
     e2dir = os.path.join(ws, "fixe2e")
     os.makedirs(e2dir)
